@@ -170,7 +170,7 @@ static void s_report(void) {
     for (struct aws_linked_list_node *n = aws_linked_list_begin(&s_sched.asap_list);
          n != aws_linked_list_end(&s_sched.asap_list);
          n = aws_linked_list_next(n)) {
-        printf(" T%d", s_of_node(n)->id);
+        printf(" T%d:%" PRIu64, s_of_node(n)->id, s_of_node(n)->task.timestamp);
     }
     printf("\nW tl");
     for (struct aws_linked_list_node *n = aws_linked_list_begin(&s_sched.timed_list);
